@@ -109,6 +109,7 @@ func d2b(d float64, b []byte) (e, bits int, dblBits []byte) {
 	d0 &= 0x7fffffff /* clear sign bit, which we ignore */
 
 	var de, k, i int
+	var hi uint32 /* the most significant word of the result */
 	if de = int(d0 >> exp_shift); de != 0 {
 		z |= exp_msk1
 	}
@@ -119,16 +120,17 @@ func d2b(d float64, b []byte) (e, bits int, dblBits []byte) {
 		k = lo0bits(y)
 		y >>= k
 		if k != 0 {
-			stuffBits(dblBits, 4, y|z<<(32-k))
+			y |= z << (32 - k)
 			z >>= k
-		} else {
-			stuffBits(dblBits, 4, y)
 		}
+		stuffBits(dblBits, 4, y)
 		stuffBits(dblBits, 0, z)
 		if z != 0 {
 			i = 2
+			hi = z
 		} else {
 			i = 1
+			hi = y
 		}
 	} else {
 		dblBits = b[:4]
@@ -137,6 +139,7 @@ func d2b(d float64, b []byte) (e, bits int, dblBits []byte) {
 		stuffBits(dblBits, 0, z)
 		k += 32
 		i = 1
+		hi = z
 	}
 
 	if de != 0 {
@@ -144,7 +147,7 @@ func d2b(d float64, b []byte) (e, bits int, dblBits []byte) {
 		bits = p - k
 	} else {
 		e = de - bias - (p - 1) + 1 + k
-		bits = 32*i - hi0bits(z)
+		bits = 32*i - hi0bits(hi)
 	}
 	return
 }
